@@ -8,10 +8,10 @@
    RELEASE build: the `debug_assert!(false)` of FieldsIter::next on a non-scalar key is compiled out
    and the iterator ends (a debug build would panic there).
 
-   deserializer side = [tape_visit]: given the hint (which deserialize_* was called) and the
+   deserializer side = [tape_visit]: given the thint (which deserialize_* was called) and the
      ValueKind, which visit_* call is made.  It is NOT recursive: every fallback chain
      (deserialize_map -> deserialize_any -> deserialize_seq -> ...) ends after at most three steps.
-   visitor side = [de]: what the visitor of the shape does with that visit (TextDeCommon.visit_prim,
+   visitor side = [de]: what the visitor of the shape does with that visit (TextDeCommon.tvisit_prim,
      the seq / tuple / map loops), calling back into the deserializer for elements and values.
    Hints that no harness shape issues (bytes, unit, newtype_struct, char) are modelled on the
    deserializer side only.  No proofs here. *)
@@ -28,7 +28,7 @@ Inductive vkind :=
 | KArr (st en : nat).                    (* ValueKind::Array *)
 
 Inductive tvisit :=
-| TVPrim (p : prim)
+| TVPrim (p : tprim)
 | TVSome (k : vkind)
 | TVNewtype (k : vkind)
 | TVSeq (st en : nat)                    (* visit_seq(SeqAccess over ValuesIter st..en) *)
@@ -65,7 +65,7 @@ Section Dom.
     match tk with TArray e _ | TObject e _ => Ok (S e) | _ => Ok (S idx) end.
 
   (* values_len(tokens, ind, end) == 0, i.e. ArrayReader::is_empty: the loop body runs at least once
-     iff ind < end; the walk itself can panic *)
+     iff ind < end; the twalk itself can panic *)
   Fixpoint values_len (fuel : nat) (ind en : nat) : outcome nat :=
     match fuel with
     | O => OutOfFuel
@@ -137,6 +137,7 @@ End Dom.
 
 Section TapeDe.
   Variable decode : bytes -> cow.
+  Variable parse_f64 : bytes -> outcome N.
   Variable fo : fops.
   Variable t : ttape.
 
@@ -164,7 +165,7 @@ Section TapeDe.
   Definition any_leaf (tk : ttok) : outcome tvisit :=
     match tk with
     | TQuoted s | TUnquoted s => Ok (TVPrim (pstr (decode s)))
-    | _ => Err E_DE
+    | _ => Err EC_DE
     end.
 
   (* ValueDeserializer::deserialize_seq with a ValueReader at vi *)
@@ -194,7 +195,7 @@ Section TapeDe.
   Definition tv_any (k : vkind) : outcome tvisit :=
     match k with
     | KScalar s => Ok (TVPrim (pstr (decode s)))
-    | KStatic s => Ok (TVPrim (PStr true s))
+    | KStatic s => Ok (TVPrim (TPStr true s))
     | KArr st en => Ok (TVSeq st en)
     | KOpVal _ vi | KVal vi => tv_any_at vi
     end.
@@ -210,49 +211,49 @@ Section TapeDe.
     | _ => tv_any k
     end.
 
-  Definition tv_scalar_hint (h : hint) (k : vkind) : outcome tvisit :=
+  Definition tv_scalar_hint (h : thint) (k : vkind) : outcome tvisit :=
     do sc <- k_read_scalar k;
     match sc with
     | Some raw =>
-        match scalar_prim decode fo true h raw with
-        | PStr _ _ => tv_any k            (* the conversion failed: self.deserialize_any(visitor) *)
+        match scalar_prim decode parse_f64 true h raw with
+        | TPStr _ _ => tv_any k            (* the conversion failed: self.deserialize_any(visitor) *)
         | p => Ok (TVPrim p)
         end
     | None => tv_any k
     end.
 
-  Definition tape_visit (h : hint) (k : vkind) : outcome tvisit :=
+  Definition tape_visit (h : thint) (k : vkind) : outcome tvisit :=
     match k with
-    | KStatic s => Ok (TVPrim (PStr true s))       (* StaticDeserializer forwards everything to deserialize_any *)
+    | KStatic s => Ok (TVPrim (TPStr true s))       (* StaticDeserializer forwards everything to deserialize_any *)
     | _ =>
       match h with
-      | HAny => tv_any k
-      | HStr =>
+      | THAny => tv_any k
+      | THStr =>
           do c <- k_read_str k;
           match c with Some c => Ok (TVPrim (pstr c)) | None => tv_any k end
-      | HString =>
+      | THString =>
           do c <- k_read_str k;
-          match c with Some c => Ok (TVPrim (PStr false (cow_bytes c))) | None => tv_any k end
-      | HBytes =>
+          match c with Some c => Ok (TVPrim (TPStr false (cow_bytes c))) | None => tv_any k end
+      | THBytes =>
           do sc <- k_read_scalar k;
-          match sc with Some raw => Ok (TVPrim (PBytes raw)) | None => tv_any k end
-      | HBool | HI64 | HU64 | HF64 => tv_scalar_hint h k
-      | HOption => Ok (TVSome k)
-      | HNewtype => Ok (TVNewtype k)
-      | HUnit | HIgnored => Ok (TVPrim PUnit)
-      | HSeq =>
+          match sc with Some raw => Ok (TVPrim (TPBytes raw)) | None => tv_any k end
+      | THBool | THI64 | THU64 | THF64 => tv_scalar_hint h k
+      | THOption => Ok (TVSome k)
+      | THNewtype => Ok (TVNewtype k)
+      | THUnit | THIgnored => Ok (TVPrim TPUnit)
+      | THSeq =>
           match k with
           | KArr st en => Ok (TVSeq st en)
           | KOpVal _ vi | KVal vi => tv_seq_at vi
           | _ => tv_any k
           end
-      | HMap | HStruct false => tv_map k
-      | HStruct true =>
+      | THMap | THStruct false => tv_map k
+      | THStruct true =>
           match k with
           | KOpVal op vi => Ok (TVPropMap op vi)
           | _ => tv_map k
           end
-      | HEnum =>
+      | THEnum =>
           match k with
           | KOpVal _ vi | KVal vi =>
               do tk <- tget t vi;
@@ -260,10 +261,10 @@ Section TapeDe.
               match ra with
               | Some (st, en) =>
                   if st <? en then do nx <- next_idx_values t st; Ok (TVEnum st (Some (nx, en)))
-                  else Err E_DE
+                  else Err EC_DE
               | None => Ok (TVEnum vi None)
               end
-          | _ => Err E_DE
+          | _ => Err EC_DE
           end
       end
     end.
@@ -281,11 +282,11 @@ Section TapeDe.
     match fuel with
     | O => OutOfFuel
     | S f =>
-      do v <- tape_visit (hint_of sh) k;
+      do v <- tape_visit (thint_of sh) k;
       match v with
-      | TVPrim p => visit_prim fo sh p
-      | TVSome k' => match sh with ShOpt s => omap DSome (de f s k') | _ => Err E_DE end
-      | TVNewtype _ => Err E_DE
+      | TVPrim p => tvisit_prim fo sh p
+      | TVSome k' => match sh with ShOpt s => omap DSome (de f s k') | _ => Err EC_DE end
+      | TVNewtype _ => Err EC_DE
       | TVSeq st en =>
           match sh with
           | ShSeq s => omap DSeq (seq_all f s st en)
@@ -295,37 +296,37 @@ Section TapeDe.
               (* serde-derive visit_seq: next_element::<Operator>, next_element::<T>, end not probed *)
               if st <? en then
                 do n1 <- next_idx_values t st;
-                do o <- (do vo <- tape_visit HStr (KVal st);
-                         match vo with TVPrim p => visit_operator p | _ => Err E_DE end);
+                do o <- (do vo <- tape_visit THStr (KVal st);
+                         match vo with TVPrim p => visit_operator p | _ => Err EC_DE end);
                 if n1 <? en then
                   do _ <- next_idx_values t n1;
                   do x <- de f s (KVal n1);
                   Ok (DProp o x)
-                else Err E_DE
-              else Err E_DE
-          | _ => Err E_DE
+                else Err EC_DE
+              else Err EC_DE
+          | _ => Err EC_DE
           end
       | TVMap st en =>
           match wmode_of sh with
-          | Some m => do a <- walk f m (acc0 m) st en; finish m a
-          | None => Err E_DE
+          | Some m => do a <- twalk f m (acc0 m) st en; finish m a
+          | None => Err EC_DE
           end
       | TVPropMap op vi =>
           match sh with
           | ShProp s => omap (DProp (op_code op)) (de f s (KVal vi))
-          | _ => Err E_DE
+          | _ => Err EC_DE
           end
       | TVEnum vi rest =>
           match sh with
           | ShEnum names =>
-              do vv <- tape_visit HStr (KVal vi);
-              do name <- match vv with TVPrim p => visit_variant names p | _ => Err E_DE end;
+              do vv <- tape_visit THStr (KVal vi);
+              do name <- match vv with TVPrim p => tvisit_variant names p | _ => Err EC_DE end;
               (* unit_variant: with a values iterator, `()` is deserialized from its next value *)
               match rest with
               | None => Ok name
-              | Some (st, en) => if st <? en then do _ <- next_idx_values t st; Ok name else Err E_DE
+              | Some (st, en) => if st <? en then do _ <- next_idx_values t st; Ok name else Err EC_DE
               end
-          | _ => Err E_DE
+          | _ => Err EC_DE
           end
       end
     end
@@ -354,24 +355,24 @@ Section TapeDe.
               do v <- de f s (KVal ti);
               do r <- seq_tup f ss' nx en;
               Ok (v :: r)
-            else Err E_DE                 (* invalid_length *)
+            else Err EC_DE                 (* invalid_length *)
         end
     end
   (* a visit_map loop over MapAccess { fields: ti..en } *)
-  with walk (fuel : nat) (m : wmode) (a : acc) (ti en : nat) : outcome acc :=
+  with twalk (fuel : nat) (m : wmode) (a : acc) (ti en : nat) : outcome acc :=
     match fuel with
     | O => OutOfFuel
     | S f =>
         let rec := fun sh k (_ : unit) => omap (fun v => (v, tt)) (de f sh k) in
         let rec_op := fun k (_ : unit) =>
-          do vo <- tape_visit HStr k;
-          match vo with TVPrim p => omap (fun o => (o, tt)) (visit_operator p) | _ => Err E_DE end in
+          do vo <- tape_visit THStr k;
+          match vo with TVPrim p => omap (fun o => (o, tt)) (visit_operator p) | _ => Err EC_DE end in
         do fn <- fields_next t ti en;
         match fn with
         | Some (key, op, vi, ti') =>
             let '(kb, knum) := key_info (KScalar key) in
             do r <- entry rec rec_op m a kb knum (KOpVal (match op with Some o => o | None => Equal end) vi) tt;
-            walk f m (fst r) ti' en
+            twalk f m (fst r) ti' en
         | None =>
             (* `else if !self.at_remainder && !self.fields.remainder().is_empty()`; afterwards
                fields.next() is None again and at_remainder is set: the loop ends *)
@@ -387,29 +388,48 @@ Section TapeDe.
     end.
 
   (* TextDeserializer::deserialize_map / deserialize_struct over ObjectReader { st..en } (root: 0..len);
-     every other root hint is refused *)
+     every other root thint is refused *)
   Definition de_root (fuel : nat) (sh : shape) (st en : nat) : outcome dval :=
-    match hint_of sh with
-    | HMap | HStruct _ =>
+    match thint_of sh with
+    | THMap | THStruct _ =>
         match wmode_of sh with
-        | Some m => do a <- walk fuel m (acc0 m) st en; finish m a
-        | None => Err E_DE
+        | Some m => do a <- twalk fuel m (acc0 m) st en; finish m a
+        | None => Err EC_DE
         end
-    | _ => Err E_DE
+    | _ => Err EC_DE
     end.
 End TapeDe.
 
-(* fuel: every call of [de]/[walk]/[seq_*] descends in the tape or in the shape; this bound is
-   generous (see proofs/TextDeTapeProofs.v for the bound the theorems use) *)
-Fixpoint shape_size (sh : shape) : nat :=
-  match sh with
-  | ShOpt s | ShSeq s | ShMap s | ShProp s => S (shape_size s)
-  | ShTup ss => S (fold_right (fun s n => shape_size s + n) 0 ss)
-  | ShStruct _ fs => S (fold_right (fun f n => shape_size (snd f) + n) 0 fs)
-  | _ => 1
+(* the harness path `objreader@k`: root.fields().nth(k), read_object, ObjectReader::deserialize *)
+Fixpoint nth_field (t : ttape) (fuel k ti en : nat) : outcome (option nat) :=
+  match fuel with
+  | O => OutOfFuel
+  | S f =>
+      do fn <- fields_next t ti en;
+      match fn with
+      | None => Ok None
+      | Some (_, _, vi, ti') => match k with O => Ok (Some vi) | S k' => nth_field t f k' ti' en end
+      end
   end.
 
 Definition tape_fuel (sh : shape) (t : ttape) : nat := 2 * length t + shape_size sh + 8.
 
-Definition deser_tape (decode : bytes -> cow) (fo : fops) (sh : shape) (t : ttape) : outcome dval :=
-  de_root decode fo t (tape_fuel sh t) sh 0 (length t).
+Definition deser_tape (decode : bytes -> cow) (parse_f64 : bytes -> outcome N) (fo : fops) (sh : shape) (t : ttape) : outcome dval :=
+  de_root decode parse_f64 fo t (tape_fuel sh t) sh 0 (length t).
+
+Definition deser_objreader (decode : bytes -> cow) (parse_f64 : bytes -> outcome N) (fo : fops) (sh : shape) (t : ttape)
+    (k : option nat) : outcome dval :=
+  match k with
+  | None => deser_tape decode parse_f64 fo sh t
+  | Some k =>
+      do vi <- nth_field t (S (length t)) k 0 (length t);
+      match vi with
+      | None => Panic 9101%N            (* the harness `expect`s the field *)
+      | Some vi =>
+          do tk <- tget t vi;
+          match read_object vi tk with
+          | Some (st, en) => de_root decode parse_f64 fo t (tape_fuel sh t) sh st en
+          | None => Err EC_DE
+          end
+      end
+  end.
